@@ -55,6 +55,9 @@ def gen_string(rng):
             # after an escaped backslash the letters of the other escapes are the interesting ones
             pool = "trn" if last_backslash and rng.random() < 0.6 else "abctrnXYZ019 _-+*/%$#@!?.,:;()[]{}<>=&|^~`'"
             ch = rng.choice(pool)
+            if rng.random() < 0.08:
+                # beyond ASCII: two- and three-byte characters, and characters outside the Basic Multilingual Plane
+                ch = rng.choice(["\u00e9", "\u4e2d", "\u20ac", "\U0001f680", "\U00020000", "\u00ff", "\u0100"])
             src += ch
             val += ch
             last_backslash = False
@@ -104,7 +107,8 @@ def const_program(rng, k):
         for i in range(rng.randint(1, 4)):
             name = "L%s" % gen.letters(i).upper()
             toks, v = tame_expr(rng, ints_lib, {(p[-1],): env.get(("lib", p[-1])) for p in ints_lib}, wild)
-            lib.append({"d": "const", "name": name, "v": {"e": "toks", "toks": toks}})
+            lib.append({"d": "const", "name": name, "v": {"e": "toks", "toks": toks,
+                                                          "glue": rng.choice(["spaced", "spaced", "tight", "left", "right"])}})
             ints_lib.append([name])
             env[("lib", name)] = v
     visible = [["lib"] + p for p in ints_lib]
@@ -114,7 +118,8 @@ def const_program(rng, k):
         r = rng.random()
         if r < 0.65:
             toks, v = tame_expr(rng, visible, env, wild)
-            main.append({"d": "const", "name": name, "v": {"e": "toks", "toks": toks}})
+            main.append({"d": "const", "name": name, "v": {"e": "toks", "toks": toks,
+                                                           "glue": rng.choice(["spaced", "spaced", "tight", "left", "right"])}})
             visible.append([name])
             env[(name,)] = v
         elif r < 0.8:
@@ -161,7 +166,8 @@ def lit_event(lang, file, name, v):
         return {"ev": "ConstLit", "lang": lang, "file": file, "name": name, "vt": "int", "v": v}
     if isinstance(v, bytes):
         return {"ev": "ConstLit", "lang": lang, "file": file, "name": name, "vt": "str", "v": list(v)}
-    return {"ev": "ConstLit", "lang": lang, "file": file, "name": name, "vt": "str", "v": list(str(v).encode("utf8"))}
+    return {"ev": "ConstLit", "lang": lang, "file": file, "name": name, "vt": "str",
+            "v": list(str(v).encode("utf8", "surrogatepass"))}
 
 
 GO_CONST = re.compile(r'^const\s+(\w+)(?:\s+(\w+))?\s*=\s*(.+?)\s*$', re.M)
@@ -290,7 +296,7 @@ def main(tier, replay=None):
     rep.assumptions += [
         "non-negative literals; a division with a negative operand or a value beyond 2^30 is out of the model "
         "(reported as skipped); division by zero has no value and must be rejected as a parser error",
-        "strings over the lexer's alphabet and its six escapes (ASCII); the value denoted by an emitted literal is "
+        "strings over the lexer's alphabet and its six escapes (ASCII, plus a few two-, three- and four-byte UTF-8 characters); the value denoted by an emitted literal is "
         "read by importing the Python module, by compiling and running a C probe, and by Go's lexical rules",
     ]
     r = designlevel.run_cfg("MC_Expr", open(common.SPEC + "/MC_Expr.cfg").read(), timeout=600)
